@@ -96,12 +96,12 @@ theorem readlineLoop_conserve (size : Nat) (line : Bytes) (s : St) :
     rw [List.append_assoc line, ← List.append_assoc (List.take _ _), List.take_append_drop]
 
 /-- giving the trailing CR back moves one byte from the result to the front of what is pending -/
-theorem giveBack_conserve (r : Bytes × St) :
-    (giveBack r).1 ++ (giveBack r).2.pending = r.1 ++ r.2.pending := by
+theorem giveBack_conserve (sz : Nat) (r : Bytes × St) :
+    (giveBack sz r).1 ++ (giveBack sz r).2.pending = r.1 ++ r.2.pending := by
   unfold giveBack
   split
   · rename_i h
-    obtain ⟨h1, h2, _⟩ := h
+    obtain ⟨_, h1, h2, _⟩ := h
     have hne : r.1 ≠ [] := by intro h0; simp [h0] at h1
     have hl : r.1.getLast hne = CR := by
       rw [List.getLast?_eq_getLast hne] at h2
@@ -112,19 +112,19 @@ theorem giveBack_conserve (r : Bytes × St) :
     simp
   · rfl
 
-theorem giveBack_log (r : Bytes × St) : (giveBack r).2.log = r.2.log := by
+theorem giveBack_log (sz : Nat) (r : Bytes × St) : (giveBack sz r).2.log = r.2.log := by
   unfold giveBack; split <;> rfl
 
-theorem giveBack_length (r : Bytes × St) : (giveBack r).1.length ≤ r.1.length := by
+theorem giveBack_length (sz : Nat) (r : Bytes × St) : (giveBack sz r).1.length ≤ r.1.length := by
   unfold giveBack; split
   · simp
   · exact Nat.le_refl _
 
-theorem giveBack_nil (r : Bytes × St) (h : (giveBack r).1 = []) : r.1 = [] := by
+theorem giveBack_nil (sz : Nat) (r : Bytes × St) (h : (giveBack sz r).1 = []) : r.1 = [] := by
   unfold giveBack at h
   split at h
   · rename_i hc
-    have h1 := hc.1
+    have h1 := hc.2.1
     have : r.1.dropLast.length = r.1.length - 1 := by simp
     simp only at h
     rw [h] at this
@@ -264,7 +264,7 @@ theorem readline_complete (s : St) (size : Nat) (hsz : 0 < size) (h : (readline 
     · have := len_pos hb; omega
     · omega
   unfold readline at h
-  replace h := giveBack_nil _ h
+  replace h := giveBack_nil _ _ h
   generalize min size (s.buf.length + s.todo) = sz at h hpos
   exact readlineLoop_ne_nil sz [] s (by simpa using hpos)
     (prep_buf_ne_nil s _ (by simpa using hpos) hp) h
@@ -330,7 +330,7 @@ theorem step_inv (src0 : Bytes) (n block : Nat) (s : St) (op : Op) (h : Inv src0
   | read sz => exact read_inv _ _ _ _ h
   | readline sz =>
     have h1 := readlineLoop_inv src0 n (min (resolve block sz) (s.buf.length + s.todo)) [] s h
-    show Inv src0 n (giveBack _).2
+    show Inv src0 n (giveBack _ _).2
     unfold giveBack
     split
     · exact inv_buf _ _ _ _ h1
@@ -658,11 +658,12 @@ theorem readlineLoop_length (size : Nat) (line : Bytes) (s : St) (hl : line.leng
 
 
 /-- dropping the held-back CR leaves no CRLF pair at all -/
-theorem giveBack_onlyFinal (r : Bytes × St) (h : OnlyFinalCRLF r.1) : OnlyFinalCRLF (giveBack r).1 := by
+theorem giveBack_onlyFinal (sz : Nat) (r : Bytes × St) (h : OnlyFinalCRLF r.1) :
+    OnlyFinalCRLF (giveBack sz r).1 := by
   unfold giveBack
   split
   · rename_i hc
-    have hne : r.1 ≠ [] := by intro h0; have := hc.1; simp [h0] at this
+    have hne : r.1 ≠ [] := by intro h0; have := hc.2.1; simp [h0] at this
     intro pre suf e
     simp only at e
     have h2 := List.dropLast_concat_getLast hne
@@ -677,26 +678,17 @@ theorem readline_cut (s : St) (size : Nat) :
     ∨ min size (s.buf.length + s.todo) ≤ (readline s size).1.length
     ∨ (readline s size).2.pending = []
     ∨ ((readline s size).2.buf.head? = some CR ∧
-        (min size (s.buf.length + s.todo) ≤ (readline s size).1.length + 1 ∨ (readline s size).2.pending = [CR])) := by
+        min size (s.buf.length + s.todo) ≤ (readline s size).1.length + 1) := by
   unfold readline
   generalize hsz : min size (s.buf.length + s.todo) = sz
   have hcut := readlineLoop_cut sz [] s
-  have hlen := readlineLoop_length sz [] s (by simp)
   unfold giveBack
   split
   · rename_i hc
-    obtain ⟨h1, h2, h3⟩ := hc
+    obtain ⟨h0, h1, h2, h3⟩ := hc
     right; right; right
     refine ⟨rfl, ?_⟩
-    rcases hcut with ⟨pre, hp⟩ | hcut | hcut
-    · rw [hp] at h2
-      simp [CR, LF] at h2
-    · left; simp only [List.length_dropLast]; omega
-    · right
-      simp only [St.pending] at hcut ⊢
-      have hb : (readlineLoop sz [] s).2.buf = [] := (List.append_eq_nil_iff.mp hcut).1
-      have ht := (List.append_eq_nil_iff.mp hcut).2
-      simp [hb, ht]
+    simp only [List.length_dropLast]; omega
   · rcases hcut with h | h | h
     · exact Or.inl h
     · exact Or.inr (Or.inl h)
